@@ -118,19 +118,16 @@ def _vacuum(rep):
                 if r_ != k:
                     for q in range(3):
                         st.prove("periodic-vector-kept[%d,%d]" % (r_, q), z3num(an.cell[r_, q]) == z3num(c0[r_, q]))
-            L0 = z3num(NP.linalg.norm(c0[[k], :]))
-            T = z3.If(5 > 3 * ctx["thick"].t, z3.RealVal(5), 3 * ctx["thick"].t)
-            for q in range(3):
-                st.prove("third-vector-rescaled[%d]" % q, z3num(an.cell[k, q]) == T * (z3num(c0[k, q]) / L0))
+            # the non-periodic vector keeps its direction (its new length is MatID's choice of vacuum: not part of the statement)
+            u = [z3num(an.cell[k, q]) for q in range(3)]
+            v = [z3num(c0[k, q]) for q in range(3)]
+            cr = [u[1] * v[2] - u[2] * v[1], u[2] * v[0] - u[0] * v[2], u[0] * v[1] - u[1] * v[0]]
+            st.prove("third-vector-parallel-to-the-original", z3.And([x == 0 for x in cr]))
+            st.prove("third-vector-same-orientation-and-non-zero", u[0] * v[0] + u[1] * v[1] + u[2] * v[2] > 0)
             st.prove("n_pbc-is-2", z3.BoolVal(int(self_._f.get("n_pbc")) == 2))
 
         run_fv(rep, "vacuum[nonperiodic=%d]." % k, m, "SymmetryAnalyzer.set_system", mk, post,
                contracts={GEO + ":get_thickness": thickness_contract})
-    # |T * c/L|^2 = T^2 when L^2 = |c|^2
-    c = [z3.Real("c%d" % q) for q in range(3)]
-    L, T = z3.Reals("L T")
-    rep.add(prove("vacuum.lemma.rescaled-length", [L > 0, L * L == c[0] * c[0] + c[1] * c[1] + c[2] * c[2]],
-                  sum(((T * (c[q] / L)) * (T * (c[q] / L)) for q in range(3)), z3.RealVal(0)) == T * T, func=REL + ":SymmetryAnalyzer.set_system", timeout_ms=60000))
 
 
 def _conventional(rep):
